@@ -28,8 +28,9 @@ func init() {
 			{Name: "custom definitions dereferenced unchecked", File: "route/table.go", Old: "\tif defs == nil {\n\t\treturn nil, errors.New(\"route: no route definitions\")\n\t}\n", New: "", Expect: "C02.P8"},
 			{Name: "one capture group fewer", File: "route/parse_new.go", Old: "( opts \"([^\"]*)\")?$`)", New: "( opts \"[^\"]*\")?$`)", Expect: "C02.P1"},
 			{Name: "submatch used without nil test", File: "route/parse_new.go", Old: "\tif m := reDelTags.FindStringSubmatch(s); m != nil {\n\t\treturn &RouteDef{Cmd: RouteDelCmd, Tags: parseTags(m[1])}, nil\n\t}", New: "\tif m := reDelTags.FindStringSubmatch(s); len(s) > 0 {\n\t\treturn &RouteDef{Cmd: RouteDelCmd, Tags: parseTags(m[1])}, nil\n\t}", Expect: "C02.P1"},
-			{Name: "hostpath indexes the second element unguarded", File: "route/table.go", Old: "\tif len(p) == 1 {\n\t\treturn p[0], \"/\"\n\t}\n", New: "", Expect: "C02.P1"},
+			{Name: "hostpath indexes the second element unguarded", File: "route/table.go", Old: "\tif len(p) == 1 {\n\t\treturn host, \"/\"\n\t}\n", New: "", Expect: "C02.P1"},
 			{Name: "MustCompile on the request path again", File: "route/table.go", Old: "\t\t\t// a pattern which does not compile cannot match\n\t\t\tlog.Print(\"[ERROR] Compiling glob - \", err)\n\t\t\tcontinue", New: "\t\t\tg = glob.MustCompile(normpat)", Expect: "C02.P7"},
+			{Name: "path that is not a glob keeps a nil matcher", File: "route/table.go", Old: "\t\tg, err := glob.Compile(path)\n\t\tif err != nil {\n\t\t\treturn err\n\t\t}\n\t\tr := &Route{Host: host, Path: path, Glob: g}\n\t\tr.addTarget(d.Service, targetURL, d.Weight, d.Tags, d.Opts)\n\t\tt[host] = Routes{r}", New: "\t\tg, err := glob.Compile(path)\n\t\tif err != nil {\n\t\t\tlog.Printf(\"[WARN] route: path %q is not a valid glob: %s\", path, err)\n\t\t}\n\t\tr := &Route{Host: host, Path: path, Glob: g}\n\t\tr.addTarget(d.Service, targetURL, d.Weight, d.Tags, d.Opts)\n\t\tt[host] = Routes{r}", Expect: "C02.P9"},
 			{Name: "benign: atomic.Pointer-like helper around SetTable", File: "main.go", Old: "\t\t\troute.SetTable(t)\n", New: "\t\t\tinstall := route.SetTable\n\t\t\tinstall(t)\n", Expect: ""},
 		},
 	})
@@ -51,6 +52,7 @@ func runC02(c *Ctx) {
 	_ = g
 	runC02L(c, setter)
 	runC02P(c)
+	runC02P9(c)
 }
 
 // runC02A1 finds the atomic holder of the active table by role and checks how it is used.
